@@ -9,7 +9,38 @@ import (
 	"verif/harness/ref/leb"
 )
 
-type W struct{ B []byte }
+// Mark locates a length / count prefix inside the encoding (for the mutators).
+type Mark struct {
+	Off, Size int
+	Kind      string // varint | byte | ubyte | short | ushort | int | long | varlong
+	What      string // what is counted: bytes | longs | elems | varints | frame ...
+	Val       int64
+}
+
+type W struct {
+	B     []byte
+	Marks []Mark
+}
+
+func (w *W) mark(size int, kind, what string, val int64) {
+	w.Marks = append(w.Marks, Mark{Off: len(w.B), Size: size, Kind: kind, What: what, Val: val})
+}
+
+// LenVarInt writes a VarInt length prefix and records its position.
+func (w *W) LenVarInt(n int, what string) {
+	e := leb.Encode(uint64(uint32(int32(n))), 32)
+	w.mark(len(e), "varint", what, int64(n))
+	w.B = append(w.B, e...)
+}
+
+// Append copies another writer's bytes and marks (shifted).
+func (w *W) Append(o *W) {
+	for _, m := range o.Marks {
+		m.Off += len(w.B)
+		w.Marks = append(w.Marks, m)
+	}
+	w.B = append(w.B, o.B...)
+}
 
 func (w *W) U8(v uint8)   { w.B = append(w.B, v) }
 func (w *W) Bool(v bool)  { w.U8(map[bool]uint8{false: 0, true: 1}[v]) }
@@ -24,7 +55,7 @@ func (w *W) Bytes(b []byte)  { w.B = append(w.B, b...) }
 
 // String / ByteArray: VarInt byte length + bytes.
 func (w *W) String(s []byte) {
-	w.VarInt(int32(len(s)))
+	w.LenVarInt(len(s), "bytes")
 	w.Bytes(s)
 }
 
@@ -35,7 +66,7 @@ func (w *W) Position(x, y, z int64) {
 
 // BitSet: VarInt number of longs + longs.
 func (w *W) BitSet(longs []int64) {
-	w.VarInt(int32(len(longs)))
+	w.LenVarInt(len(longs), "longs")
 	for _, l := range longs {
 		w.U64(uint64(l))
 	}
@@ -45,16 +76,22 @@ func (w *W) BitSet(longs []int64) {
 func (w *W) Len(kind string, n int) {
 	switch kind {
 	case "varint":
-		w.VarInt(int32(n))
+		w.LenVarInt(n, "elems")
 	case "varlong":
-		w.VarLong(int64(n))
+		e := leb.Encode(uint64(int64(n)), 64)
+		w.mark(len(e), "varlong", "elems", int64(n))
+		w.B = append(w.B, e...)
 	case "byte", "ubyte":
+		w.mark(1, kind, "elems", int64(n))
 		w.U8(uint8(n))
 	case "short", "ushort":
+		w.mark(2, kind, "elems", int64(n))
 		w.U16(uint16(n))
 	case "int":
+		w.mark(4, kind, "elems", int64(n))
 		w.U32(uint32(n))
 	case "long":
+		w.mark(8, kind, "elems", int64(n))
 		w.U64(uint64(n))
 	default:
 		panic("wire: length kind " + kind)
